@@ -30,9 +30,14 @@ Zs == {-1, 0, 5, 20, 30, 31, 40, 41}
 \* attenuator step in centimetres: commensurate with every beam length (50), and not (30, 7)
 StepsCm == {50, 30, 7}
 
-VARIABLES mix, shape, x, y, z, step
-vars == <<mix, shape, x, y, z, step>>
-Init == mix \in 1..Len(Mixes) /\ shape \in 1..Len(Shapes) /\ x \in Xs /\ y \in Ys /\ z \in Zs /\ step \in StepsCm
+\* bulk velocity of the plasma ions in the beam frame, in tenths of the beam speed: at rest, or (2, 3, 4) so that the
+\* relative velocity (-2, -3, 10 - 4) has the integer length 7 (a Pythagorean quadruple)
+Flows == {<<0, 0, 0>>, <<2, 3, 4>>}
+
+VARIABLES mix, shape, x, y, z, step, flow
+vars == <<mix, shape, x, y, z, step, flow>>
+Init == /\ mix \in 1..Len(Mixes) /\ shape \in 1..Len(Shapes) /\ x \in Xs /\ y \in Ys /\ z \in Zs /\ step \in StepsCm
+        /\ flow \in Flows /\ (flow # <<0, 0, 0>> => step = 50 /\ y = 0)         \* flows explored on the commensurate lattice
 Next == UNCHANGED vars
 Spec == Init /\ [][Next]_vars
 
@@ -55,6 +60,11 @@ R2den == SX2 * SY2
 Clamped == Sh[5] /\ R2num > Sh[6] * Sh[6] * R2den
 Class == IF z < 0 THEN "zero_before_source" ELSE IF z > Sh[4] THEN "zero_beyond_length" ELSE IF Clamped THEN "zero_outside_clamp" ELSE "value"
 
+\* interaction energy / beam energy = |v_beam - v_ion|^2 / v_beam^2 as <<num, den>>; the mock stopping rate is proportional to it,
+\* so the composite coefficient is S * EFac
+EFac == <<flow[1] * flow[1] + flow[2] * flow[2] + (10 - flow[3]) * (10 - flow[3]), 100>>
+FlowSlowsOrKeeps == EFac[1] > 0
+
 \* ---- the tabulation lattice of the attenuation (SingleRayAttenuator._calc_attenuation): nbeam nodes spread evenly over the
 \* beam length, at least 4 and at most one step apart; the node spacing is length / (nbeam - 1), which is the step only when
 \* the step divides the length.  For a uniform plasma the attenuation at the nodes is exact whatever the spacing.
@@ -74,6 +84,6 @@ NoStoppingConservesFlux == (mix = 4) => S = 0
 DirX == x * z * z * Sh[2] * Sh[2]          \* e_x numerator over SX2 (times D ...), e_z = z
 Streamline == z > 0 => DirX * 1 = (x * z * Sh[2] * Sh[2]) * z
 
-EmitCase == PrintT(ToJson([mix |-> M, shape |-> Sh, D |-> D, step_cm |-> step, nbeam |-> NBeam, on_node |-> OnNode, x |-> x, y |-> y, z |-> z, class |-> Class, S |-> S, z2n |-> Z2N, neq |-> NEq,
+EmitCase == PrintT(ToJson([mix |-> M, shape |-> Sh, D |-> D, step_cm |-> step, flow |-> flow, efac |-> EFac, nbeam |-> NBeam, on_node |-> OnNode, x |-> x, y |-> y, z |-> z, class |-> Class, S |-> S, z2n |-> Z2N, neq |-> NEq,
                            sx2 |-> SX2, sy2 |-> SY2, dir |-> << <<x * z * z * Sh[2] * Sh[2], SX2>>, <<y * z * z * Sh[3] * Sh[3], SY2>>, <<z, 1>> >>]))
 =============================================================================
